@@ -436,6 +436,12 @@ func (s *Selection) SelectAShellWord() (bpos, epos int) {
 		}
 
 		s.cursor.Move(s.line.ForwardEnd(s.line.TokenizeSpace, cpos))
+
+		// No further word end to go to (eg. a trailing newline).
+		if s.cursor.Pos() == cpos {
+			break
+		}
+
 		cpos = s.cursor.Pos()
 	}
 
